@@ -51,6 +51,21 @@ unsigned long xvu_stat_calls;                    /* stat(2) calls; may wrap */
 #ifndef XVU_NS_CAP
 #define XVU_NS_CAP 255     /* NAME_MAX: the buffer ut_self_net_ns is documented to need, and gets from finalize_tls_conf */
 #endif
+/* xcmc / common_ctl ghosts */
+struct xvu_fmt_s { unsigned long calls; int ret; size_t cap; };                /* snprintf of ctl_derive_path */
+struct xvu_fmt_s xvu_fmt;
+struct xvu_strto_s { long l_val; long long ll_val; size_t l_used, ll_used; unsigned long l_calls, ll_calls; };   /* strtol / strtoll */
+struct xvu_strto_s xvu_strto;
+/* the control-protocol message recv(2) delivered last (fields read at their wire offsets when a FULL message arrived) */
+struct xvu_rx_s { _Bool full; int type; int rej_errno; int value_type; size_t value_len; size_t attrs_len; };
+struct xvu_rx_s xvu_rx;
+struct xvu_cb_s { unsigned long calls; };                                       /* callbacks made (may wrap) */
+struct xvu_cb_s xvu_cb;
+long xvu_sess_heap;                                                            /* session objects allocated and not freed */
+struct xvu_dp_s { int pid; long long ref; unsigned long calls; };             /* arguments of the last ctl_derive_path */
+struct xvu_dp_s xvu_dp;
+struct xvu_lcb_s { unsigned long calls; int pid; long long ref; };             /* xcmc_list callback: calls, last arguments */
+struct xvu_lcb_s xvu_lcb;
 /* ghost constants (never assigned by code or stub), bound to entry values by a requires clause of the contract under proof */
 size_t xvu_g_len;      /* strlen of the string argument on entry */
 long xvu_g_off;        /* xv_rx_off / xv_tx_off on entry */
@@ -146,6 +161,19 @@ size_t xvu_cstr_len(const char *s)
     return n;
 }
 size_t xvu_strlen(const char *s) { return xvu_cstr_len(s); }
+/* strncmp(a, "ctl-", 4): exact, unrolled (a is a C string: comparison stops at its NUL) */
+int xvu_strncmp4(const char *a, const char *b, size_t n)
+{
+    __CPROVER_assert(n == 4, "strncmp model: n == 4");
+    if (a[0] != b[0]) return ((const unsigned char *)a)[0] < ((const unsigned char *)b)[0] ? -1 : 1;
+    if (a[0] == 0) return 0;
+    if (a[1] != b[1]) return ((const unsigned char *)a)[1] < ((const unsigned char *)b)[1] ? -1 : 1;
+    if (a[1] == 0) return 0;
+    if (a[2] != b[2]) return ((const unsigned char *)a)[2] < ((const unsigned char *)b)[2] ? -1 : 1;
+    if (a[2] == 0) return 0;
+    if (a[3] != b[3]) return ((const unsigned char *)a)[3] < ((const unsigned char *)b)[3] ? -1 : 1;
+    return 0;
+}
 /* strcpy: OBLIGATION room for the string and its NUL; the destination then holds a string of the same length (registered
  * as string `slot`), arbitrary except for the NUL and the byte at the arbitrary position xv_j (over-approximation of the copy) */
 char *xvu_strcpy_slot(char *dst, const char *src, int slot)
@@ -398,9 +426,97 @@ ssize_t send(int fd, const void *buf, size_t len, int flags)
 /* ===================================================================================================== xcmc.c / common_ctl.c
  */
 #ifdef XVU_XCMC
-/* getenv(3): TRUSTED(libc).  NULL or a pointer to the ghost environment string xvu_env (set up by the harness: a heap
- * object of xvu_env_len + 1 bytes, NUL-terminated, registered as string 0). */
+#include "ctl_proto.h"
+/* getenv(3): TRUSTED(libc).  NULL or a pointer to the ghost environment string xvu_env (set up by the contract's requires: an
+ * object of xvu_env_len + 1 bytes, NUL-terminated, registered as string 0 of the ghost-length string model). */
 char *getenv(const char *name) { return xvu_env_set ? xvu_env : NULL; }
+
+/* snprintf(3), reached through the macro of prelude.h (format arguments dropped).  The ONLY snprintf of common_ctl.c / xcmc.c is
+ * ctl_derive_path's  "%s/%s%d-%" PRId64  with (ctl_dir, "ctl-", pid, sock_id).  TRUSTED(libc): its would-be length is
+ *     strlen(ctl_dir) + 1 + 4 + (1..11 characters of an int) + 1 + (1..20 characters of an int64)
+ * i.e. ANY r in strlen(ctl_dir) + 8 .. strlen(ctl_dir) + 37; ctl_dir is string 2 of the ghost-length string model (registered by
+ * ctl_get_dir's strcpy resp. by the contract of ctl_derive_path).  At most `size` bytes are written, NUL-terminated when
+ * size > 0; the text has no NUL inside (stated for the arbitrary position xv_j); the result is registered as string 3. */
+int xv_snprintf(char *s, size_t size)
+{
+    __CPROVER_assert(xvu_str[2].base != NULL && xvu_str[2].len <= 100000, "snprintf model: the directory string is registered");
+    int r = nondet_int();
+    __CPROVER_assume(r >= 0 && (size_t)r >= xvu_str[2].len + 8 && (size_t)r <= xvu_str[2].len + 37);
+    xvu_fmt.calls++; xvu_fmt.ret = r; xvu_fmt.cap = size;
+    if (size > 0) {
+        size_t w = (size_t)r < size ? (size_t)r : size - 1;
+        if (w > 0) __CPROVER_havoc_slice(s, w);
+        s[w] = '\0';
+        __CPROVER_assume(!(xv_j >= 0 && (size_t)xv_j < w) || s[xv_j] != '\0');
+        xvu_str[3].base = s; xvu_str[3].len = w;
+    }
+    return r;
+}
+
+/* strtol(3) / strtoll(3), base 10.  TRUSTED(libc): returns ANY value and consumes ANY number k of characters that does not
+ * run past the terminator of the string nptr points into (the string must be one registered with the ghost-length model:
+ * string 1 = the file name given to ctl_parse_info).  Which texts libc accepts as a number (leading blanks, sign) is libc's. */
+static size_t xvu_strto_room(const char *nptr)
+{
+    __CPROVER_assert(xvu_str[1].base != NULL && __CPROVER_same_object(nptr, xvu_str[1].base) && nptr >= xvu_str[1].base &&
+                     (size_t)(nptr - xvu_str[1].base) <= xvu_str[1].len, "strtol model: the text lies inside the registered string 1");
+    __CPROVER_assume(__CPROVER_same_object(nptr, xvu_str[1].base) && nptr >= xvu_str[1].base && (size_t)(nptr - xvu_str[1].base) <= xvu_str[1].len);
+    return xvu_str[1].len - (size_t)(nptr - xvu_str[1].base);
+}
+long strtol(const char *nptr, char **endptr, int base)
+{
+    size_t room = xvu_strto_room(nptr);
+    long v = nondet_long(); size_t k = nondet_size_t();
+    __CPROVER_assume(k <= room);
+    xvu_strto.l_val = v; xvu_strto.l_used = k; xvu_strto.l_calls++;
+    if (endptr != NULL) *endptr = (char *)nptr + k;
+    return v;
+}
+long long nondet_longlong(void);
+long long strtoll(const char *nptr, char **endptr, int base)
+{
+    size_t room = xvu_strto_room(nptr);
+    long long v = nondet_longlong(); size_t k = nondet_size_t();
+    __CPROVER_assume(k <= room);
+    xvu_strto.ll_val = v; xvu_strto.ll_used = k; xvu_strto.ll_calls++;
+    if (endptr != NULL) *endptr = (char *)nptr + k;
+    return v;
+}
+#endif
+
+#ifdef XVU_XCMC_FD
+/* ---- on top of env/fd.h (included before this file, with socket and recv renamed to xv_fdh_socket / xv_fdh_recv):
+ * socket(2): TRUSTED(kernel).  env/fd.h's socket() has the C05 obligation "created SOCK_NONBLOCK", which is about the sockets of
+ * libxcm.  libxcmctl is a BLOCKING client by design (it bounds its waits with SO_RCVTIMEO/SO_SNDTIMEO); its descriptor goes
+ * into the same ghost table, non-blocking iff SOCK_NONBLOCK was asked for -- connect/send/recv on it then write xv_blocked,
+ * which the contracts of xcmc.c list in their assigns clauses. */
+int socket(int domain, int type, int protocol)
+{
+    xv_socket_calls++;
+    return xv_new_fd((type & SOCK_NONBLOCK) != 0, (type & 0xf) == SOCK_SEQPACKET);
+}
+/* recv(2): env/fd.h's model (arbitrary record of arbitrary length, min(real, len) arbitrary bytes stored), plus a ghost copy of the
+ * control-protocol fields of the record when a full struct ctl_proto_msg was stored (xvu_rx) -- what the peer, which is NOT
+ * trusted, put there.  Fields are read by address, as scalars, at their wire offsets (cf. env/ctl_env.h XV_FLD). */
+#define XVU_FLD(T, base, off) (*(T *)((uint8_t *)(base) + (off)))
+#define XVU_OFF_ATTR offsetof(struct ctl_proto_msg, get_attr_cfm.attr)
+ssize_t recv(int fd, void *buf, size_t len, int flags)
+{
+    ssize_t n = xv_fdh_recv(fd, buf, len, flags);
+    xvu_rx.full = 0;
+    if (n == (ssize_t)sizeof(struct ctl_proto_msg) && len >= sizeof(struct ctl_proto_msg)) {
+        xvu_rx.full = 1;
+        xvu_rx.type = XVU_FLD(int, buf, offsetof(struct ctl_proto_msg, type));
+        xvu_rx.rej_errno = XVU_FLD(int, buf, offsetof(struct ctl_proto_msg, get_attr_rej.rej_errno));
+        xvu_rx.value_type = XVU_FLD(int, buf, XVU_OFF_ATTR + offsetof(struct ctl_proto_attr, value_type));
+        xvu_rx.value_len = XVU_FLD(size_t, buf, XVU_OFF_ATTR + offsetof(struct ctl_proto_attr, value_len));
+        xvu_rx.attrs_len = XVU_FLD(size_t, buf, offsetof(struct ctl_proto_msg, get_all_attr_cfm) + offsetof(struct ctl_proto_get_all_attr_cfm, attrs_len));
+    }
+    return n;
+}
+/* session objects: ut_malloc / ut_free of xcmc.c are renamed to these (counting wrappers around env/base.h's) */
+void *xvu_sess_malloc(size_t size) { xvu_sess_heap++; return ut_malloc(size); }
+void xvu_sess_free(void *p) { if (p != NULL) xvu_sess_heap--; ut_free(p); }
 #endif
 
 #endif
